@@ -57,7 +57,7 @@ def configs(max_idle):
         "s_ka": st.one_of(st.none(), ka),
         "c_ka": st.one_of(st.none(), ka),
         "c_ka_mode": setter_mode,
-        "s_conn_timeout": st.one_of(st.none(), st.sampled_from([1.0, 2.5, 5.0, 8.0, 20.0])),
+        "s_conn_timeout": st.one_of(st.none(), st.sampled_from([0.1, 0.3, 1.0, 2.5, 5.0, 8.0, 20.0])),
         "s_msg_timeout": st.one_of(st.none(), st.sampled_from([0.3, 1.0, 2.0])),
         "c_msg_timeout": st.one_of(st.none(), st.sampled_from([0.3, 1.0, 2.0])),
         "c_msg_mode": setter_mode,
@@ -67,6 +67,9 @@ def configs(max_idle):
         "cut": st.sampled_from(["none", "both", "c2s", "s2c", "both"]),
         "delay": st.sampled_from([0.001, 0.01, 0.04]),
         "late": st.booleans(),      # ServerContext settings made after the server object was constructed (still before start)
+        "s_order": st.permutations(["ka", "conn", "msg"]),     # order of the ServerContext setter calls
+        "ka_change": st.one_of(st.none(), st.tuples(st.floats(0.1, 0.9), ka).map(list)),   # client keep-alive changed mid-idle
+        "cut_replay": st.booleans(),    # after the cut, stale copies of the peer's last datagrams keep arriving
     })
 
 
@@ -156,8 +159,10 @@ def idle_body(ctx, c):
     errors = []
 
     def configure(ctxt):
-        for v, fn in ((c["s_ka"], ctxt.setKeepAliveInterval), (c["s_conn_timeout"], ctxt.setConnectionTimeout),
-                      (c["s_msg_timeout"], ctxt.setMessageTimeout)):
+        setters = {"ka": (c["s_ka"], ctxt.setKeepAliveInterval), "conn": (c["s_conn_timeout"], ctxt.setConnectionTimeout),
+                   "msg": (c["s_msg_timeout"], ctxt.setMessageTimeout)}
+        for name in c.get("s_order", ["ka", "conn", "msg"]):
+            v, fn = setters[name]
             if v is not None:
                 try:
                     fn(v)
@@ -188,19 +193,54 @@ def idle_body(ctx, c):
         t0 = w.clock.t
         n_status0 = len(ch.status_log)
         ev0 = len([e for e in w.events if e["ev"] in ("connect", "disconnect")])
-        st_.run(c["idle"])
+        t_change = None
+        if c.get("ka_change"):
+            frac, new_ka = c["ka_change"]
+            if new_ka + 2 * frame + 2 * tick + delay + 0.05 < s_ct:
+                st_.run(c["idle"] * frac)
+                try:
+                    ch.udp.setKeepAliveInterval(new_ka)
+                except Exception as e:
+                    ctx.violation("setter-raises", "setKeepAliveInterval(%r) on an idle connection raised %s: %s" % (new_ka, type(e).__name__, e))
+                t_change = w.clock.t
+                old_ka, c_ka = c_ka, new_ka
+                st_.run(c["idle"] * (1 - frac) + max(old_ka, new_ka) + 0.3)
+            else:
+                st_.run(c["idle"])
+        else:
+            st_.run(c["idle"])
         t1 = w.clock.t
         what = "idle %.1f s (s_ka=%s c_ka=%s/%s tick=%.3f frame=%.3f)" % (c["idle"], c["s_ka"], c["c_ka"], c["c_ka_mode"], tick, frame)
         if len(ch.status_log) != n_status0 or not ch.connected():
             ctx.violation("idle-connection-dropped-by-client", "%s: client status log %r" % (what, ch.status_log[-3:]))
         if len([e for e in w.events if e["ev"] in ("connect", "disconnect")]) != ev0 or ch.laddr not in w.ctxt.connections:
             ctx.violation("idle-connection-dropped-by-server", "%s: server dropped the idle client" % what)
-        gaps_oracle(ctx, w, ch, t0 + max(s_ka, c_ka) + tick, t1, s_ka, c_ka, tick, frame, what)
+        if t_change is None:
+            gaps_oracle(ctx, w, ch, t0 + max(s_ka, c_ka) + tick, t1, s_ka, c_ka, tick, frame, what)
+        else:
+            # before the change the old interval governs, from the change on the new one: the first datagram after the change
+            # is due one (new) interval after the previous datagram, or right away if that instant has already passed
+            gaps_oracle(ctx, w, ch, t0 + max(s_ka, old_ka) + tick, t_change, s_ka, old_ka, tick, frame, what + " before the keep-alive change")
+            prev = None
+            for em in w.net.log:
+                if em.src != ch.laddr or em.t > t1:
+                    continue
+                if em.t > t_change and prev is not None:
+                    due = max(prev.t + c_ka, t_change) + frame + 1e-6
+                    if em.t > due:
+                        ctx.violation("keep-alive-change-ignored", "%s: interval changed %.3f -> %.3f at t=%.3f; next client datagram at %.4f, due by %.4f" % (
+                            what, old_ka, c_ka, t_change, em.t, due))
+                    if W.parse_header(em.data).type == W.T_KEEP_ALIVE and prev.t >= t_change and em.t - prev.t < c_ka - 1e-6:
+                        ctx.violation("keep-alive-change-ignored", "%s: keep-alive %.4f s after the previous datagram although the interval is now %.3f" % (what, em.t - prev.t, c_ka))
+                prev = em
+            if prev is None or prev.t < t1 - (c_ka + frame + 1e-6):
+                ctx.violation("keep-alive-change-ignored", "%s: client silent after the interval change (last datagram %s)" % (what, prev and round(prev.t, 3)))
         if c["cut"] != "none":
             cut = c["cut"]
             s_last_rx = sconn.last_recv_time
             c_last_rx = ch.conn.last_recv_time
             w.net.policy = lambda em: [] if (cut == "both" or (cut == "c2s") == em.to_server) else [delay]
+            n_cut = len(w.net.log)
             # in flight datagrams still arrive: track the last receive instants while the link drains
             t_cut = w.clock.t
             rec_c = ch.send(W.payload_for(1, 20), retry=RetryMode.NONE.value, callback=True)
@@ -209,29 +249,39 @@ def idle_body(ctx, c):
             w.on_event.append(lambda e: disc.append(e["t"]) if e["ev"] == "disconnect" else None)
             horizon = max(s_ct, 5.0) + 2.0 + max(s_mt, c_mt)
             t_end = w.clock.t + horizon
+            # the last genuine arrivals, from the harness's own record of the wire (not from the endpoints' bookkeeping):
+            # the datagram emitted last before the cut arrives `delay` later and is processed at the next tick / frame
+            last_c2s = max([em.t for em in w.net.log[:n_cut] if em.to_server and em.src == ch.laddr] or [t_cut])
+            last_s2c = max([em.t for em in w.net.log[:n_cut] if not em.to_server and em.dst == ch.laddr] or [t_cut])
+            k_rep = 0
             while w.clock.t < t_end:
-                if ch.conn is not None and ch.conn.status == ConnectionStatus.CONNECTED:
-                    c_last_rx = ch.conn.last_recv_time
-                if not disc:
-                    s_last_rx = sconn.last_recv_time
                 st_.step()
+                k_rep += 1
+                if c.get("cut_replay") and k_rep % 40 == 0:
+                    # stale copies of datagrams that were delivered before the cut (network duplication / replay)
+                    for em in w.net.log[max(0, n_cut - 6):n_cut]:
+                        if em.fates:
+                            w.net.push(w.clock.t + 0.001, em.dst, em.src, em.data)
+            s_lo, s_hi = last_c2s + delay, last_c2s + delay + tick
+            c_lo, c_hi = last_s2c + delay, last_s2c + delay + frame
             # server side detection
             if cut in ("both", "c2s"):
                 if not disc:
                     ctx.violation("dead-client-not-dropped", "%s cut=%s: no disconnect event %.1f s after the client went silent (timeout %.1f)" % (what, cut, horizon, s_ct))
                 else:
-                    lo, hi = s_last_rx + s_ct, s_last_rx + s_ct + 2 * tick + EPS
+                    lo, hi = s_lo + s_ct, s_hi + s_ct + 2 * tick + EPS
                     if not (lo - EPS <= disc[0] <= hi):
-                        ctx.violation("server-timeout-instant", "%s cut=%s: disconnect at %.4f, expected within [%.4f, %.4f] (last rx %.4f + timeout %.2f)" % (what, cut, disc[0], lo, hi, s_last_rx, s_ct))
+                        ctx.violation("server-timeout-instant", "%s cut=%s replay=%s: disconnect at %.4f, expected within [%.4f, %.4f] (last genuine arrival in [%.4f, %.4f] + timeout %.2f)" % (
+                            what, cut, c.get("cut_replay"), disc[0], lo, hi, s_lo, s_hi, s_ct))
             # client side detection
             if cut in ("both", "s2c"):
                 drops = [t for t, s in ch.status_log if s == "DROPPED"]
                 if not drops:
                     ctx.violation("dead-server-not-detected", "%s cut=%s: client never reported DROPPED (status log %r)" % (what, cut, ch.status_log[-3:]))
                 else:
-                    lo, hi = c_last_rx + 5.0, c_last_rx + 5.0 + 2 * frame + EPS
-                    if not (lo < drops[0] <= hi):
-                        ctx.violation("client-dropped-instant", "%s cut=%s: DROPPED at %.4f, expected within (%.4f, %.4f]" % (what, cut, drops[0], lo, hi))
+                    lo, hi = c_lo + 5.0, c_hi + 5.0 + 2 * frame + EPS
+                    if not (lo - EPS < drops[0] <= hi):
+                        ctx.violation("client-dropped-instant", "%s cut=%s replay=%s: DROPPED at %.4f, expected within (%.4f, %.4f]" % (what, cut, c.get("cut_replay"), drops[0], lo, hi))
             # message timeouts follow the configured values
             ems = {"c": None, "s": None}
             for em in w.net.log:
